@@ -22,6 +22,16 @@ def main():
             print('!!', c.name, type(e).__name__, e)
             traceback.print_exc()
         print('%-40s %d obligations' % (c.name, len(eng.obligations) - n0))
+    for lem in reg.lemmas:
+        if filt and filt not in lem.name:
+            continue
+        n0 = len(eng.obligations)
+        try:
+            eng.verify_lemma(lem)
+        except (Unsupported, ContractError) as e:
+            print('!!', lem.name, type(e).__name__, e)
+            traceback.print_exc()
+        print('%-40s %d obligations' % ('lemma ' + lem.name, len(eng.obligations) - n0))
     print('generation %.1fs' % (time.time() - t0))
     import os
     if os.environ.get('PYVC_DUMP'):
